@@ -890,6 +890,8 @@ func execBatch(sc *Scenario, env *Env) *Result {
 		allV = append(allV, execLateFile(sc, env, root, refs, order, run, res)...)
 	case "unreadable":
 		allV = append(allV, execUnreadable(sc, env, root, refs, order, run, res)...)
+	case "replaced":
+		allV = append(allV, execReplaced(sc, env, root, refs, order, run, res)...)
 	}
 	seen := map[string]bool{}
 	for _, v := range allV {
